@@ -86,9 +86,16 @@ def pmap(fn, jobs_list, procs=None):
     procs = procs or common.jobs()
     if len(jobs_list) <= 1 or procs == 1:
         return [fn(j) for j in jobs_list]
+    # concurrent.futures, not multiprocessing.Pool: when a pool process dies (the kernel's OOM killer, a crash) the latter waits for ever,
+    # the former raises BrokenProcessPool
+    from concurrent.futures import ProcessPoolExecutor
+    from concurrent.futures.process import BrokenProcessPool
     ctx = mp.get_context("fork")
-    with ctx.Pool(min(procs, len(jobs_list))) as pool:
-        return pool.map(_safe, [(fn, j) for j in jobs_list], chunksize=1)
+    try:
+        with ProcessPoolExecutor(max_workers=min(procs, len(jobs_list)), mp_context=ctx) as pool:
+            return list(pool.map(_safe, [(fn, j) for j in jobs_list], chunksize=1))
+    except BrokenProcessPool:
+        raise tla.MachineryError("a pool process died while driving the code under test (killed, e.g. out of memory): no verdict") from None
 
 
 # ----------------------------------------------------------------------------- drive + judge inside the worker processes
